@@ -275,6 +275,43 @@ def mk_values(name, shape):
         return mk_values('%s.squeeze(%s)' % (o.name, drop), [x for i, x in enumerate(shape) if i not in drop])
     v.methods['squeeze'] = squeeze
 
+    def reshape(itp, o, a, k):
+        # C-order regrouping: a reshape of a reshape is the reshape of the original (the intermediate shape leaves no trace in the values)
+        shp = a[0] if len(a) == 1 and isinstance(a[0], (list, tuple)) else (list(a) if a and all(isinstance(x, int) for x in a) else None)
+        if k or shp is None or not all(isinstance(x, int) and not isinstance(x, bool) for x in shp) or not all(isinstance(x, int) for x in o.attrs['shape']):
+            return Sym('call', '%s.reshape' % o.name, tuple(a), dict(k))
+        if _prod(list(shp)) != _prod(list(o.attrs['shape'])):
+            raise Raised('ValueError')
+        base = o.attrs.get('_reshape_of', o)
+        if list(shp) == list(base.attrs['shape']):
+            return base
+        r = mk_values('%s.reshape(%s)' % (base.name, list(shp)), list(shp))
+        r.attrs['_reshape_of'] = base
+        return r
+    v.methods['reshape'] = reshape
+
+    def transpose(itp, o, a, k):
+        perm = a[0] if len(a) == 1 and isinstance(a[0], (list, tuple)) else (list(a) if a else None)
+        shape = o.attrs['shape']
+        n = len(shape)
+        if k or (perm is not None and not all(isinstance(x, int) and not isinstance(x, bool) for x in perm)):
+            return Sym('call', '%s.transpose' % o.name, tuple(a), dict(k))
+        if perm is None:
+            perm = list(range(n))[::-1]
+        if len(perm) != n:
+            raise Raised('ValueError')
+        norm = []
+        for x in perm:
+            if not -n <= x < n:
+                raise Raised('AxisError')
+            norm.append(x % n)
+        if len(set(norm)) != n:
+            raise Raised('ValueError')
+        if norm == list(range(n)):
+            return o
+        return mk_values('%s.transpose(%s)' % (o.name, norm), [shape[i] for i in norm])
+    v.methods['transpose'] = transpose
+
     def fill(itp, o, a, k):
         o.name = '%s.filled(%s)' % (o.name, render(a[0]))
     v.methods['fill'] = fill
@@ -781,6 +818,11 @@ def sc_reshape(P):
         out.append(('%s -> list %s, transpose=False' % (list(dims), t), lambda mk=mk, t=t: ([mk(), list(t)], {'transpose': False}, OPTS(P))))
     for spec, t in (([('a', 'b'), 'c'], ['a', 'b', 'c']), ([('a', 'b'), 'c'], ['b', 'c,a']), (['c', ('a', 'b')], ['a,c', 'b']), ([('a', 'b')], ['a', 'b']), ([('a', 'b')], ['b', 'a'])):
         out.append(('grouped %s -> %s' % (spec, t), lambda spec=spec, t=t: ([grouped_array(P, spec), list(t)], {}, OPTS(P))))
+    # several groups, with more dimensions before / between / after them
+    d5 = (('a', 'b', 'c', 'd', 'e'), (2, 3, 4, 5, 6))
+    for t in (['a,b', 'c,d', 'e'], ['a', 'b,c', 'd,e'], ['a,b', 'c', 'd,e'], ['e', 'a,b', 'c,d'], ['a,b', 'c,d,e'], ['b,a', 'd,c', 'e'], ['c,d', 'a,b', 'e'], ['a', 'b,c', 'd', 'e'],
+              ['a,b', 'n1', 'c,d', 'e']):
+        out.append(('%s -> list %s' % (list(d5[0]), t), lambda t=t: ([A(P, *d5), list(t)], {}, OPTS(P))))
     out.append(("['a', 'b'] -> single string 'a,b'", lambda: ([A(P, *d2), 'a,b'], {}, OPTS(P))))
     out.append(("['a', 'b'] -> unknown keyword", lambda: ([A(P, *d2), ['a', 'b']], {'bogus': 1}, OPTS(P))))
     return out
